@@ -991,7 +991,7 @@ pub fn generate_rt(seed: u64, thorough: bool) -> Vec<String> {
             docs.push(t);
         }
     }
-    let n = if thorough { 12000 } else { 2400 };
+    let n = if thorough { 40000 } else { 2400 };
     for i in 0..n {
         docs.push(gen_doc(&mut rng, i % 4 != 3).text);
     }
@@ -1031,7 +1031,7 @@ fn rand_la(rng: &mut Rng) -> String {
 pub fn generate(seed: u64, thorough: bool) -> Vec<String> {
     let mut rng = Rng::new(seed ^ 0x25F);
     let mut out = vec![];
-    let n = if thorough { 20000 } else { 3000 };
+    let n = if thorough { 60000 } else { 3000 };
     let names_pool = ["INITIAL", "M1", "M2", "Str"];
     for i in 0..n {
         let udefs: Vec<(String, String)> = (0..rng.below(3)).map(|_| (rng.pick(&["Alias", "Alias2", "N0"]).to_string(), rng.pick(TYPES).to_string())).collect();
